@@ -28,6 +28,28 @@ def run_unit(kind, key, tier, known, seed=0):
     try:
         reg = _load_specs()
         from .vcgen import verify_function, verify_lemma
+        if kind == 'finite':
+            fc = reg.finite_checks[key]
+            obls = []
+            status, reason = 'ok', ''
+            try:
+                for item in fc['fn']():
+                    obls.append(dict(name='%s/%s' % (key, item['name']),
+                        kind='post', status='discharged' if item['ok']
+                        else 'failed', backend='enumeration', time_s=0.0,
+                        line=item.get('line'), note=item.get('note', ''),
+                        model=item.get('witness'), smt2=None, variant='',
+                        reason=None, known=None))
+            except (SpecError, OutsideSubset) as e:
+                status, reason = 'spec-mismatch', str(e)
+            return dict(kind=kind, key=key, short=key, status=status,
+                        reason=reason, serves=fc['serves'], file=fc['what'],
+                        sha256=None, lines=None, dropped=[], notes=[],
+                        inline_safety=0, variants=1,
+                        covers=[('%s/domain-non-empty' % key,
+                                 'sat' if obls else 'unsat')],
+                        gen_s=0, wall_s=round(time.time() - t0, 3),
+                        return_paths=1, obls=obls, assumed=[])
         if kind == 'lemma':
             res = verify_lemma(reg.lemmas[key], reg)
         else:
